@@ -290,24 +290,30 @@ def same_violation(a: Violation | None, b: Violation | None) -> bool:
     return a.cls == b.cls and a.key == b.key
 
 
+SHRINK_WALL_S = float(os.environ.get("VERIF_SHRINK_WALL_S", "90"))
+
+
 def shrink(prop: str, trace: dict, target: Violation, max_replays=400):
-    """ddmin over events + engine-specific simplifications; keeps class and key."""
+    """ddmin over events + engine-specific simplifications; keeps class and key. Bounded by a number of replays and by
+    wall time (a replay of an endurance trace takes seconds)."""
     eng = get_engine(prop)
     budget = [max_replays]
+    t_end = time.time() + SHRINK_WALL_S
 
     def still_fails(cand):
-        if budget[0] <= 0:
+        if budget[0] <= 0 or time.time() > t_end:
+            budget[0] = 0
             return False
         budget[0] -= 1
         try:
-            r = guarded(eng.replay, cand)
+            r = guarded(eng.replay, cand, timeout_s=600 if cand.get("lane") == "endurance" else None)
         except (RunTimeout, Exception):
             return False
         return same_violation(r.violation, target)
 
     cur = trace
     # 1. cut everything after the failing event
-    r0 = guarded(eng.replay, cur)
+    r0 = guarded(eng.replay, cur, timeout_s=600 if cur.get("lane") == "endurance" else None)
     if r0.violation is not None and r0.violation.event_index is not None:
         cand = dict(cur)
         cand["events"] = cur["events"][: r0.violation.event_index + 1]
